@@ -55,6 +55,21 @@ func init() {
 		setSelf.Add(args[0])
 		return NoneType{}, nil
 	}, 0, "add(value)")
+
+	SetType.Dict["update"] = MustNewMethod("update", func(self Object, args Tuple) (Object, error) {
+		setSelf := self.(*Set)
+		for _, arg := range args {
+			// read the argument first: it may be the set itself
+			other, err := SequenceSet(arg)
+			if err != nil {
+				return nil, err
+			}
+			for item := range other.items {
+				setSelf.items[item] = SetValue{}
+			}
+		}
+		return NoneType{}, nil
+	}, 0, "update(*others) -- update a set with the union of itself and others")
 }
 
 // Add an item to the set
